@@ -1000,7 +1000,7 @@ theorem securityTryFrom_okOrErr (v : View) (hb : v.img.base % 4 = 0) : OkOrErr (
 /-- the shape shared by `Debug::try_from` and `Exception::try_from` -/
 def tableTryFrom (v : View) (idx recSize : Nat) : Out Ref :=
   match v.dataDir idx with
-  | none => .err .bounds
+  | none => .err .null
   | some (va, size) =>
     if size % recSize ≠ 0 then .err .invalid
     else v.dervaSlice (.rva va) recSize 4 (size / recSize)
@@ -1046,7 +1046,7 @@ theorem tableTryFrom_ok_iff (v : View) (idx recSize : Nat) (hr : recSize < 42949
         rw [hs]
 
 theorem tableTryFrom_errors (v : View) (idx recSize : Nat) :
-    (v.dataDir idx = none → tableTryFrom v idx recSize = .err .bounds) ∧
+    (v.dataDir idx = none → tableTryFrom v idx recSize = .err .null) ∧
     (∀ va size, v.dataDir idx = some (va, size) → size % recSize ≠ 0 → tableTryFrom v idx recSize = .err .invalid) ∧
     (∀ size, v.dataDir idx = some (0, size) → size % recSize = 0 → tableTryFrom v idx recSize = .err .null) := by
   unfold tableTryFrom
